@@ -282,6 +282,13 @@ func (w *TimerWork) Post(out *RunOut) {
 				fail("ran-after-stop", "Timer.Stop returned true at %s but the delayed function ran at %s", time.Duration(stop.TR), time.Duration(rs[0].T))
 				return
 			}
+			// whatever Stop answered: a Stop that had returned at an instant strictly before the due
+			// instant came before the timer could fire ("not at all after cancel")
+			if stop != nil && stop.Inv > o.Ret && stop.TR < o.TI+w.WaitNs && len(rs) > 0 {
+				fail("ran-after-stop-before-due", "Timer.Stop returned (%v) at %s, before the due instant %s of the delay started at %s, yet the delayed function ran at %s",
+					stop.Bool, time.Duration(stop.TR), time.Duration(o.TI+w.WaitNs), time.Duration(o.TI), time.Duration(rs[0].T))
+				return
+			}
 			if settled && len(rs) == 0 && (stop == nil || !stop.Bool) {
 				fail("never-ran", "the delayed function never ran although it was not stopped (Stop absent or returned false)")
 				return
@@ -560,8 +567,8 @@ func (w *TimerWork) Post(out *RunOut) {
 					}
 					for _, n := range nexts {
 						// the Next must have been waiting at an instant strictly before the closing Cancel's: one
-					// invoked in the very same instant may simply lose the race for the mutex to the Cancel
-					if !n.Bool && n.Inv < closing.Inv && n.Ret > closing.Inv && n.TI < closing.TI {
+						// invoked in the very same instant may simply lose the race for the mutex to the Cancel
+						if !n.Bool && n.Inv < closing.Inv && n.Ret > closing.Inv && n.TI < closing.TI {
 							fail("pending-trigger-never-granted", "the trigger at %s (seq %d) had to be honoured, a Next (client%d#%d) kept waiting, yet it was only released (false) by the closing Cancel at %s", time.Duration(c.TI), c.Inv, n.Task, n.Idx, time.Duration(closing.TI))
 							return
 						}
